@@ -489,6 +489,16 @@ func ZZ_SVC_Scenarios() {
 			mgr.taggingJobRunning = true
 			idxs, rel = mgr.getIndexesCopy(0)
 		})
+		{ // the tags shown for a single stream are correct while the tag is pending
+			v := mgr.GetView()
+			sc, err := v.Stream(0)
+			zz.Assert(err == nil && sc.Stream() != nil, "pending.view-has-stream-0")
+			has, err := sc.HasTag("tag/big")
+			zz.Assert(err == nil, "pending.hastag.noerr")
+			zz.Assert(has == (model.flows[0].cbytes >= zzThreshold), "pending.tags-shown-for-a-stream-are-correct-while-the-tag-is-pending")
+			v.Release()
+			zzInService(mgr, func() {})
+		}
 		imp("c0.pcap") // only extends flow 0: nothing added, nothing reset
 		zzWaitImports(mgr)
 		mgr.updateTagJob("tag/big", t, map[string]query.TagDetails{}, map[string]index.ConverterAccess{}, idxs, rel)
